@@ -16,7 +16,7 @@ RULE = ("scenario = cache_dir type (rock with 4 KB / 32 KB slots, ufs, aufs) x a
         "different sizes), purges and evictions x a crash point: the LD_PRELOAD injector SIGKILLs the whole squid process group when "
         "the N-th change of a cache_dir file (write/pwrite/unlink/rename/truncate, counted across squid, its I/O threads and unlinkd) "
         "is about to happen, optionally after writing only the first b bytes of that write; quick: every 5th event of two workloads per store type "
-        "+ torn variants, thorough: every event of five workloads per store type (aufs: every 2nd) + torn lengths; some scenarios crash a second time (during the index rebuild "
+        "+ torn variants, thorough: every event of 3-5 workloads for rock, every 2nd / 3rd event for ufs / aufs, a torn variant per point (rock) or per 2 points; some scenarios crash a second time (during the index rebuild "
         "or later) or crash during a clean shutdown; then a start without fault injection, an only-if-cached probe of every URL, two "
         "more stores, and the probes again; non-trivial = the crash point was reached (squid died by the injector) after at least one "
         "completed store; distinct = distinct scenario lines")
@@ -637,13 +637,13 @@ def cases(rng, tier):
     thorough = tier == "thorough"
     plans = []      # (store, nkeys, ops, step between crash points, torn variants per crash point as (num, den))
     if thorough:
-        for st, step, torn in (("rock4096", 1, (2, 1)), ("rock32768", 1, (2, 1)), ("ufs", 1, (1, 2)), ("aufs", 2, (1, 1))):
-            for nk, ops in WORKLOADS:
+        # every event of every workload for rock (the store type with the findings), every 2nd / 3rd for ufs / aufs
+        for st, step, torn, nw in (("rock4096", 1, (1, 1), 4), ("rock32768", 1, (1, 1), 2), ("ufs", 2, (1, 2), 3), ("aufs", 3, (1, 2), 2)):
+            for nk, ops in WORKLOADS[:nw]:
                 plans.append((st, nk, ops, step, torn))
             nk = rng.range(1, 3)
             plans.append((st, nk, random_workload(rng, nk), step, torn))
-        plans.append(("rock32768", EVICTION[0], EVICTION[1], 2, (1, 2)))
-        plans.append(("ufs", EVICTION[0], EVICTION[1], 8, (1, 4)))
+        plans.append(("rock32768", EVICTION[0], EVICTION[1], 4, (1, 2)))
     else:
         # quick: every 5th event (the offset moves with the seed) of one fixed and one random workload per store type
         for st in STORES_QUICK:
@@ -670,7 +670,7 @@ def cases(rng, tier):
         # second crashes: during the rebuild that follows the first one, during later stores, during a clean shutdown
         if "190000" in ops or (not thorough and not rng.chance(1, 2)):
             continue
-        for _ in range(4 if thorough else 1):
+        for _ in range(3 if thorough else 1):
             n1 = rng.range(1, total)
             kind = rng.below(4)
             if kind == 0:
